@@ -219,7 +219,15 @@ Definition c_nosync (p : cpc) : bool :=
   match p with CC_S1 _ | CC_S2 _ | CC_SPut _ => false | _ => true end.
 
 Definition cmd_in_FC (o : op) : Prop :=
-  match o with OCmd fc _ => In fc FC | OSync _ => False | _ => True end.
+  match o with
+  | OCmd fc _ => In fc FC
+  | OSend (Some f) _ => In f FC
+  | OSync _ => False
+  | _ => True
+  end.
+
+Definition is_send_op (o : op) : bool :=
+  match o with OCmd _ _ | OSend _ _ => true | _ => false end.
 
 Definition Npipe (s : state) : Prop := nf (pipeline s) = nf (emitted s).
 
@@ -241,7 +249,7 @@ Record Nside (cfg : config) (s : state) : Prop := mkNside {
   ns_p6 : filt s = None -> no_p6 s;
   ns_rbuf : r_pc s = RD_Read -> r_buf s = [];
   ns_noE : e_pc (a_pc s) = false;
-  ns_cmd : cmd_pc (a_pc s) = true -> exists fc r t, a_script s = OCmd fc r :: t
+  ns_cmd : cmd_pc (a_pc s) = true -> exists o t, a_script s = o :: t /\ is_send_op o = true
 }.
 
 Lemma Nside_ext : forall cfg s s',
@@ -425,15 +433,26 @@ Proof.
   - split; [|split]; assumption.
 Qed.
 
+Lemma cur_fk_in : forall cfg s, Nside cfg s -> cmd_pc (a_pc s) = true ->
+  forall f, cur_fk s = Some f -> In f FC.
+Proof.
+  intros cfg s Hs Hc f Hf. destruct (ns_cmd _ _ Hs Hc) as (o & t & Esc & Ho).
+  pose proof (ns_script _ _ Hs) as F. rewrite Esc in F. inversion F as [|? ? Hh _]; subst.
+  unfold cur_fk in Hf. rewrite Esc in Hf. destruct o as [fc r|k r| | | |]; cbn in *; try discriminate.
+  - inversion Hf; subst; auto.
+  - subst k. auto.
+Qed.
+
 Lemma a_begin_side : forall cfg sc, Forall cmd_in_FC sc ->
   (forall m, a_begin cfg sc <> A_W3 m) /\ (forall p m, a_begin cfg sc <> A_W4 p m)
   /\ (forall p m, a_begin cfg sc <> A_VP p m)
   /\ e_pc (a_begin cfg sc) = false /\ (virt cfg = false -> vpc (a_begin cfg sc) = false)
-  /\ (cmd_pc (a_begin cfg sc) = true -> exists fc r t, sc = OCmd fc r :: t).
+  /\ (cmd_pc (a_begin cfg sc) = true -> exists o t, sc = o :: t /\ is_send_op o = true).
 Proof.
   intros cfg sc HF. destruct sc as [|o t]; cbn.
   - repeat split; intros; try discriminate; auto.
   - inversion HF as [|? ? Ho _]; subst. destruct o; cbn in *; try contradiction.
+    + destruct (virt cfg) eqn:Ev; repeat split; intros; try discriminate; auto; eauto.
     + destruct (virt cfg) eqn:Ev; repeat split; intros; try discriminate; auto; eauto.
     + repeat split; intros; try discriminate; auto.
     + repeat split; intros; try discriminate; auto.
@@ -498,14 +517,13 @@ Proof.
   destruct (a_pc s) eqn:Epc.
   - (* Done *) split; [|split]; assumption.
   - (* Crash *) split; [|split]; assumption.
-  - (* S0 *) pc_move s Epc Hp Hs Hv.
+  - (* S0 *) destruct (cur_fk s); pc_move s Epc Hp Hs Hv.
   - (* S1 *)
-    destruct (ns_cmd _ _ Hs) as (fc & r & t & Esc); [rewrite Epc; reflexivity|].
-    assert (Hfc : In (cur_fc s) FC).
-    { unfold cur_fc. rewrite Esc. pose proof (ns_script _ _ Hs) as F. rewrite Esc in F.
-      inversion F; subst. auto. }
-    pc_move s Epc Hp Hs Hv.
-  - (* S2 *) pc_move s Epc Hp Hs Hv.
+    assert (Hfk : forall f, cur_fk s = Some f -> In f FC) by (apply (cur_fk_in cfg s Hs); rewrite Epc; reflexivity).
+    destruct (cur_fk s) as [f|] eqn:Efk; [specialize (Hfk f eq_refl)|]; pc_move s Epc Hp Hs Hv.
+  - (* S2 *)
+    destruct (cur_is_cmd s); [pc_move s Epc Hp Hs Hv|].
+    match goal with |- Inv_N _ (a_finish _ ?s1) => fin_move cfg s s1 Epc Hp Hs Hv end.
   - (* W0 *) pc_move s Epc Hp Hs Hv.
   - (* W1 *) pc_move s Epc Hp Hs Hv.
   - (* W2 *)
@@ -548,10 +566,7 @@ Proof.
     + pc_move s Epc Hp Hs Hv.
   - (* V0 *) pc_move s Epc Hp Hs Hv.
   - (* V1 *)
-    destruct (ns_cmd _ _ Hs) as (fc & r & t & Esc); [rewrite Epc; reflexivity|].
-    assert (Hfc : In (cur_fc s) FC).
-    { unfold cur_fc. rewrite Esc. pose proof (ns_script _ _ Hs) as F. rewrite Esc in F.
-      inversion F; subst. auto. }
+    assert (Hfk : forall f, cur_fk s = Some f -> In f FC) by (apply (cur_fk_in cfg s Hs); rewrite Epc; reflexivity).
     assert (Evt : virt cfg = true).
     { destruct (virt cfg) eqn:E; auto. pose proof (ns_nat _ _ Hs E) as V. rewrite Epc in V. discriminate. }
     destruct (Hv Evt) as (Ew & Esp & Er & Eb).
@@ -606,7 +621,9 @@ Proof.
       * split; [|split; [side_tac Hs|exact Hv]].
         unfold Npipe in *. transitivity (nf (pipeline s)); [|exact Hp]. f_equal.
         unfold pipeline, hand_c, hand_r, hand_a. cbn. rewrite Epc, Evb. rewrite <- !app_assoc. reflexivity.
-  - (* V3 *) pc_move s Epc Hp Hs Hv.
+  - (* V3 *)
+    destruct (cur_is_cmd s); [pc_move s Epc Hp Hs Hv|].
+    match goal with |- Inv_N _ (a_finish _ ?s1) => fin_move cfg s s1 Epc Hp Hs Hv end.
   - (* L1 *) destruct (legacy_lock cfg); pc_move s Epc Hp Hs Hv.
   - (* L2 *) destruct (legacy_lock cfg);
       match goal with |- Inv_N _ (a_finish _ ?s1) => fin_move cfg s s1 Epc Hp Hs Hv end.
@@ -664,7 +681,7 @@ End Notif.
 
 (** The filter classes of a script. *)
 Definition fcs (script : list op) : list N :=
-  flat_map (fun o => match o with OCmd fc _ => [fc] | _ => [] end) script.
+  flat_map (fun o => match o with OCmd fc _ => [fc] | OSend (Some f) _ => [f] | _ => [] end) script.
 
 Definition no_sync_op (o : op) : bool := match o with OSync _ => false | _ => true end.
 
@@ -673,8 +690,9 @@ Lemma script_in_fcs : forall script, forallb no_sync_op script = true ->
 Proof.
   intros script H. apply Forall_forall. intros o Ho.
   assert (Hn : no_sync_op o = true) by (eapply forallb_forall in H; eauto).
-  destruct o; cbn in *; auto; try discriminate.
-  unfold fcs. apply in_flat_map. exists (OCmd fc react). split; auto. cbn; auto.
+  destruct o as [fc react|[f|] react| | | |]; cbn in *; auto; try discriminate.
+  - unfold fcs. apply in_flat_map. exists (OCmd fc react). split; auto. cbn; auto.
+  - unfold fcs. apply in_flat_map. exists (OSend (Some f) react). split; auto. cbn; auto.
 Qed.
 
 (** notifications_exactly_once_in_order: at every reachable state, what has reached
@@ -817,10 +835,12 @@ Proof.
   unfold wt. rewrite E. lia.
 Qed.
 
-(** H1: the reaction to a command holds exactly one message that a command filter keeps. *)
+(** H1: the reaction to a command holds exactly one message that a command filter keeps; what
+    answers a message sent without waiting (send_message) holds none. *)
 Definition wf_cmd (o : op) : Prop :=
   match o with
   | OCmd fc react => In fc FC /\ exists x, filter (isr FC) (msgs_of (concat react)) = [x]
+  | OSend k react => (forall f, k = Some f -> In f FC) /\ filter (isr FC) (msgs_of (concat react)) = []
   | _ => True
   end.
 
@@ -892,14 +912,17 @@ Record Rside (s : state) : Prop := mkRside {
   rs_script : Forall wf_cmd (a_script s);
   rs_spont : Forall no_resp (spont s);
   rs_filt : forall f, filt s = Some f -> In f FC;
-  rs_cmd : cmd_pc (a_pc s) = true -> exists fc r t, a_script s = OCmd fc r :: t;
+  rs_cmd : cmd_pc (a_pc s) = true -> exists o t, a_script s = o :: t /\ is_send_op o = true;
   rs_routed : routed (returned s) = true
 }.
+
+(** A command (not a mere send_message) is past its send phase. *)
+Definition waiting (s : state) : bool := wait_phase (a_pc s) && cur_is_cmd s.
 
 Definition Inv_R (s : state) : Prop :=
   Rside s
   /\ (all_ok (returned s) = true ->
-      if wait_phase (a_pc s) then (W s <= 1)%nat else W s = 0%nat).
+      if waiting s then (W s <= 1)%nat else W s = 0%nat).
 
 
 Lemma Rside_ext : forall s s',
@@ -914,7 +937,8 @@ Lemma Inv_R_keep : forall s s',
   returned s' = returned s -> (W s' <= W s)%nat -> Inv_R s -> Inv_R s'.
 Proof.
   intros s s' E1 E2 E3 E4 E5 Hw (Hs & Hq). split; [eapply Rside_ext; eauto|].
-  rewrite E4, E5. intro Ho. specialize (Hq Ho). destruct (wait_phase (a_pc s)); lia.
+  unfold waiting, cur_is_cmd in *. rewrite E1, E4, E5. intro Ho. specialize (Hq Ho).
+  destruct (wait_phase (a_pc s) && _); lia.
 Qed.
 
 Ltac w_tac :=
@@ -971,10 +995,11 @@ Qed.
 Lemma a_begin_idle : forall cfg sc, wait_phase (a_begin cfg sc) = false.
 Proof. intros cfg [|[] ?]; cbn; auto; repeat match goal with |- context [if ?b then _ else _] => destruct b end; auto. Qed.
 
-Lemma wait_finish : forall cfg s1, wait_phase (a_pc (a_finish cfg s1)) = false.
-Proof. intros. unfold a_finish. cbn. apply a_begin_idle. Qed.
+Lemma wait_finish : forall cfg s1, waiting (a_finish cfg s1) = false.
+Proof. intros. unfold waiting, a_finish. cbn. rewrite a_begin_idle. reflexivity. Qed.
 
-Lemma a_begin_cmd : forall cfg sc, cmd_pc (a_begin cfg sc) = true -> exists fc r t, sc = OCmd fc r :: t.
+Lemma a_begin_cmd : forall cfg sc, cmd_pc (a_begin cfg sc) = true ->
+  exists o t, sc = o :: t /\ is_send_op o = true.
 Proof.
   intros cfg [|[] ?]; cbn; intros; try discriminate; eauto;
     repeat match goal with H : context [if ?b then _ else _] |- _ => destruct b end; discriminate.
@@ -983,13 +1008,13 @@ Qed.
 Lemma Inv_R_pc : forall s s',
   a_script s' = a_script s -> spont s' = spont s -> (forall f, filt s' = Some f -> In f FC) ->
   (cmd_pc (a_pc s') = true -> cmd_pc (a_pc s) = true) -> returned s' = returned s ->
-  (wait_phase (a_pc s) = true -> wait_phase (a_pc s') = true) ->
+  (waiting s = true -> waiting s' = true) ->
   (W s' <= W s)%nat -> Inv_R s -> Inv_R s'.
 Proof.
   intros s s' E1 E2 Hf Hc E5 Hph Hw ([] & Hq). split.
   - constructor; rewrite ?E1, ?E2, ?E5; auto.
   - rewrite E5. intro Ho. specialize (Hq Ho).
-    destruct (wait_phase (a_pc s)) eqn:P1; destruct (wait_phase (a_pc s')) eqn:P2; try lia;
+    destruct (waiting s) eqn:P1; destruct (waiting s') eqn:P2; try lia;
       specialize (Hph eq_refl); discriminate.
 Qed.
 
@@ -997,7 +1022,7 @@ Qed.
 Lemma Inv_R_finish : forall cfg s s1,
   a_script s1 = a_script s -> spont s1 = spont s -> filt s1 = filt s -> returned s1 = returned s ->
   upstream (a_finish cfg s1) = upstream s ->
-  wait_phase (a_pc s) = false -> Inv_R s -> Inv_R (a_finish cfg s1).
+  waiting s = false -> Inv_R s -> Inv_R (a_finish cfg s1).
 Proof.
   intros cfg s s1 E1 E2 E3 E5 Eu Hph ([] & Hq). split.
   - constructor; unfold a_finish; cbn; rewrite ?E1, ?E2, ?E3, ?E5; auto.
@@ -1014,7 +1039,7 @@ Ltac pcm s Epc H :=
   | try (destruct H as ([] & _); assumption)
   | cbn; rewrite ?Epc; cbn; auto
   | reflexivity
-  | cbn; rewrite ?Epc; cbn; auto
+  | unfold waiting; cbn; rewrite ?Epc; cbn; first [discriminate | auto]
   | w_tac; rewrite ?Epc; w_tac
   | exact H ].
 
@@ -1025,7 +1050,7 @@ Ltac finm cfg s Epc H :=
     | unfold upstream, inq_msgs, hand_w, hand_k, hand_r, hand_a; cbn; rewrite Epc;
       (destruct (a_begin cfg (tl (a_script s))) eqn:Eb; try reflexivity;
        pose proof (a_begin_idle cfg (tl (a_script s))) as X; rewrite Eb in X; discriminate)
-    | rewrite Epc; reflexivity
+    | unfold waiting; rewrite Epc; reflexivity
     | exact H ]
   end.
 
@@ -1043,29 +1068,51 @@ Qed.
 Lemma Inv_R_step_A : forall cfg s, Inv_R s -> Inv_R (step_A cfg s).
 Proof.
   intros cfg s H. unfold step_A. destruct (a_pc s) eqn:Epc; auto.
-  - (* S0 *) pcm s Epc H.
+  - (* S0 *) destruct (cur_fk s); pcm s Epc H.
   - (* S1 *)
+    destruct (cur_fk s) as [f|] eqn:Efk; [|pcm s Epc H].
     destruct H as (Hs & Hq).
-    destruct (rs_cmd _ Hs) as (fc & r & t & Esc); [rewrite Epc; reflexivity|].
-    assert (Hfc : In (cur_fc s) FC).
-    { unfold cur_fc. rewrite Esc. pose proof (rs_script _ Hs) as F. rewrite Esc in F.
-      inversion F as [|? ? Hw _]; subst. destruct Hw; auto. }
+    destruct (rs_cmd _ Hs) as (o & t & Esc & Ho); [rewrite Epc; reflexivity|].
+    assert (Hwf : wf_cmd o) by (pose proof (rs_script _ Hs) as F; rewrite Esc in F; inversion F; auto).
+    assert (Hfc : In f FC).
+    { unfold cur_fk in Efk. rewrite Esc in Efk. destruct o; cbn in *; try discriminate.
+      - inversion Efk; subst. destruct Hwf; auto.
+      - destruct Hwf as (Hk & _). auto. }
     apply (Inv_R_pc s); try reflexivity; [| | | |split; auto].
-    + cbn. intros f Ef. inversion Ef; subst; auto.
+    + cbn. intros f0 Ef. inversion Ef; subst; auto.
     + cbn. rewrite Epc. auto.
-    + rewrite Epc; discriminate.
+    + unfold waiting. rewrite Epc. discriminate.
     + w_tac; rewrite ?Epc; w_tac.
   - (* S2 *)
     destruct H as (Hs & Hq).
-    destruct (rs_cmd _ Hs) as (fc & r & t & Esc); [rewrite Epc; reflexivity|].
-    assert (Hwf : wf_cmd (OCmd fc r)).
-    { pose proof (rs_script _ Hs) as F. rewrite Esc in F. inversion F; auto. }
-    split; [destruct Hs; constructor; cbn; auto; intros; discriminate|].
-    cbn [returned a_pc set_a_pc set_in_q]. intro Ho. specialize (Hq Ho). rewrite Epc in Hq. cbn in Hq. cbn [wait_phase].
-    assert (E : W (set_a_pc A_W0 (set_in_q (in_q s ++ [cur_react s]) s)) = (W s + 1)%nat).
-    { unfold cur_react. rewrite Esc. w_tac. rewrite Epc, Esc. cbn [hd]. w_tac.
-      rewrite (wsum_reaction fc r Hwf). cbn [wsum]. lia. }
-    rewrite E, Hq. lia.
+    destruct (rs_cmd _ Hs) as (o & t & Esc & Ho); [rewrite Epc; reflexivity|].
+    assert (Hwf : wf_cmd o) by (pose proof (rs_script _ Hs) as F; rewrite Esc in F; inversion F; auto).
+    unfold waiting in Hq. rewrite Epc in Hq. cbn [wait_phase andb] in Hq.
+    unfold cur_is_cmd, cur_react. rewrite Esc. destruct o as [fc r|k r| | | |]; try discriminate.
+    + (* a command: its reaction is on its way *)
+      split; [destruct Hs; constructor; cbn; auto; intros; discriminate|].
+      cbn [returned]. intro Ho'. specialize (Hq Ho').
+      assert (Ew : waiting (set_a_pc A_W0 (set_in_q (in_q s ++ [r]) s)) = true)
+        by (unfold waiting, cur_is_cmd; cbn; rewrite Esc; reflexivity).
+      rewrite Ew.
+      assert (E : W (set_a_pc A_W0 (set_in_q (in_q s ++ [r]) s)) = (W s + 1)%nat).
+      { w_tac. rewrite Epc, Esc. cbn [hd]. w_tac.
+        rewrite (wsum_reaction fc r Hwf). cbn [wsum]. lia. }
+      rewrite E, Hq. lia.
+    + (* send_message: nothing in the reaction looks like a response *)
+      destruct Hwf as (Hk & Hnr).
+      split.
+      * destruct Hs. constructor; unfold a_finish; cbn; auto.
+        -- rewrite Esc in *. cbn. inversion rs_script0; auto.
+        -- apply a_begin_cmd.
+      * cbn [returned a_finish set_a_pc set_a_script set_in_q]. intro Ho'. specialize (Hq Ho').
+        rewrite (wait_finish cfg (set_in_q (in_q s ++ [r]) s)).
+        unfold W in *. rewrite upstream_finish by auto. apply (wsum_zero_any (cur_op s)).
+        change (wsum (cur_op s) (inq_msgs (set_in_q (in_q s ++ [r]) s) ++ hand_w s ++ msgs_of (concat (wire s))
+                                 ++ msgs_of (r_buf s) ++ hand_r s ++ out_q s ++ [] ++ [] ++ a_vbuf s) = 0%nat).
+        unfold upstream, hand_k, hand_a in Hq. rewrite Epc in Hq.
+        unfold inq_msgs in *. cbn [in_q set_in_q]. rewrite flat_map_app. cbn [flat_map]. unfold react_msgs at 2.
+        rewrite !wsum_app in *. cbn [wsum] in *. rewrite (wsum_no_resp _ _ Hnr). lia.
   - (* W0 *) pcm s Epc H.
   - (* W1 *) pcm s Epc H.
   - (* W2 *)
